@@ -18,4 +18,5 @@ def run(ctx, rep):
     optargs.rule_missing_is_undefined(ctx, rep, "C20-R6", lambda f: any(p in f.qual for p in ("_make_regexp_method", "_create_regexp_constructor", "_make_string_method.match", "_make_string_method.search", "_make_string_method.replace", "_make_string_method.split")), "the RegExp methods and constructor and the regex-driven String methods", floor=4)
     builtins.rule_template_single_pass(ctx, rep, "C20-R7")
     regexrules.rule_lastindex_conditions_agree(ctx, rep, "C20-R8")
+    regexrules.rule_driver_not_bypassed(ctx, rep, "C20-R11")
     pairing.rule_borrowed_slot_restored(ctx, rep, "C20-R10", lambda f: f.module.name in ("vm", "context", "values"), "the runtime")
